@@ -428,7 +428,7 @@ func genericType(t reflect.Type, depth int) bool {
 	if depth > 30 {
 		return false
 	}
-	if isHole(t) {
+	if isHole(t) || t == durCfg {
 		return true
 	}
 	if t == rawType || (t.PkgPath() != "" && t.PkgPath() != v2Pkg) {
@@ -444,6 +444,9 @@ func genericType(t reflect.Type, depth int) bool {
 		return t.Key().Kind() == reflect.String && genericType(t.Elem(), depth+1)
 	case reflect.Ptr:
 		e := t.Elem()
+		if e == durCfg {
+			return true
+		}
 		if isHole(e) {
 			return false
 		}
